@@ -33,11 +33,17 @@ func scenC13(r *Run, job *Job) {
 	for i := 0; i < nExt; i++ {
 		exts = append(exts, ExtCfg{Name: fmt.Sprintf("e%d", i+1), Subs: extSubSets[t.Draw(len(extSubSets))]})
 	}
-	nInt := []int{0, 1, 2, 3, 11}[t.Weighted(2, 3, 3, 1, 1)]
+	nInt := []int{0, 1, 2, 3, 11}[t.Weighted(2, 3, 3, 1, 2)]
 	if nInt == 11 && t.Chance(1, 2) {
 		// one of the registrations near the limit is descheduled inside the registration service while the others
 		// proceed
-		r.AddHold("registrationServiceImpl).CreateInternalAgent", 7+t.Draw(5), 1+t.Draw(3))
+		// (the Nth lock acquisition inside CreateInternalAgent: 7..11 when a registration takes the lock once, further
+		// out for an implementation that takes it more than once per registration)
+		nth := 7 + t.Draw(5)
+		if t.Chance(1, 2) {
+			nth = 12 + t.Draw(11)
+		}
+		r.AddHold("registrationServiceImpl).CreateInternalAgent", nth, 1+t.Draw(3))
 	}
 	fn := []string{"", "my-func"}[t.Draw(2)]
 	handler := []string{"", "app.handler"}[t.Draw(2)]
